@@ -158,6 +158,8 @@ def run(chk):
             chk.ob("C14-D1.types", fname, "%s converted" % cal, ok, f.loc(n), "%s can throw %s, which is not a documented exception type" % (cal, THROWING_STD[cal]))
 
     # ------------------------------------------------------------------ D2 / D3
+    from tsg.effects import Effects as _Eff
+    effd2 = _Eff(db)
     nmut = 0
     nread = 0
     readers = [f for f in db.all_functions([CPP]) if f.cls == TSG and f.name.rsplit("::", 1)[-1] in ("readAscii", "readBinary")]
@@ -171,6 +173,13 @@ def run(chk):
             if short(fld) in STATE and fld.startswith(TSG + "::"):
                 # non-const calls *through* base (base->loadNeededValues) change the grid itself: they count too
                 muts.append((n, short(fld)))
+        # a call of a non-const method of the same object that (transitively) changes the state is a change as well: clearRefinement(), loadNeededValues() ...
+        for c2, t2 in effd2.this_calls(f):
+            if t2.d.get("const") or short(t2.name) == "clear" or short(t2.name) == last or any(x is c2 for x, _ in muts):
+                continue
+            w2 = sorted({short(x) for x in effd2.closure(t2)} & set(STATE))
+            if w2:
+                muts.append((c2, "%s (through %s())" % (w2[0], short(t2.name))))
         clears = [c for c in f.calls(TSG + "::clear", into_lambda=False)]
         ths = [n for n in walk(f.body, into_lambda=False) if n.get("k") == "CXXThrowExpr"]
         # a call of another validating method of the same object (the overload this one forwards to) can still reject the call:
